@@ -20,7 +20,7 @@ PROPS = {
     'C12': dict(families=['layout', 'normalize', 'strings'], bounded='pvf.bounded.c12', level='other'),
     'C13': dict(families=['runpretty', 'context'], bounded='pvf.bounded.c13', level='other'),
     'C14': dict(families=['runpretty'], bounded='pvf.bounded.c14', level='other'),
-    'C15': dict(families=[], bounded='pvf.bounded.c15', level='other'),
+    'C15': dict(families=['registry'], bounded='pvf.bounded.c15', level='proof'),
     'C16': dict(families=[], bounded='pvf.bounded.c16', level='other'),
     'C17': dict(families=[], bounded='pvf.bounded.c17', level='other'),
     'C18': dict(families=['config'], bounded='pvf.bounded.c18', level='proof'),
